@@ -7,7 +7,7 @@ Import ListNotations.
 (* the dispatch chain of the current source: unknown modules raise (they are not skipped), nn.Identity is a no-op,
    and the structural validation is called and contains every check the model mirrors *)
 Theorem C14_dispatch : parse_else = ElseRaise /\ parse_calls_validate = true /\ parse_requires_logic_layer = true
-  /\ forallb snd structure_checks = true.
+  /\ forallb snd structure_checks = true /\ flatten_default_only = true.
 Proof. repeat split; vm_compute; reflexivity. Qed.
 
 (* if the constructor succeeds then: no foreign / nested / unsupported module occurs, every layer module of the
